@@ -143,6 +143,8 @@ def synthetic_label(draw, extra_models=(), min_size=1, max_size=8, avoid=frozens
     characters that cannot start a number; at least one special character is forced with
     probability ~0.7 in a random position (leading where the rules allow)."""
     n = draw(st.integers(min_size, max_size))
+    if max_size >= 6 and draw(st.sampled_from((False,) * 29 + (True,))):
+        n = draw(st.sampled_from((64, 65, 70, 130)))  # the label alphabet has no length limit
     first_pool = _LETTERS + "/*_()'~" + "-+."  # '-', '+', '.' allowed when not followed by digit/.digit
     chars = [draw(st.sampled_from(first_pool))]
     for _ in range(n - 1):
@@ -156,7 +158,7 @@ def synthetic_label(draw, extra_models=(), min_size=1, max_size=8, avoid=frozens
     while not safe_label(s, extra_models) or s in avoid:
         s = "q" + s if k % 2 == 0 else s + "z"
         k += 1
-        if len(s) > max_size + 6:
+        if len(s) > max(max_size, n) + 6:
             s = "q" + str(sum(map(ord, s)) % 997) + "z"
     return s
 
